@@ -2,7 +2,7 @@
     models compute on the inputs the checks use (nesting bombs, length bombs, boundary announcements). *)
 From RB Require Import Base.Prelude Sig.Types Sig.Parser Sig.ParserProofs Sig.Validator Sig.ValidatorProofs
   Wire.Bytes Wire.Align Wire.Text Wire.Value Wire.SpecEnc Wire.Marshal Wire.Decode Wire.Unmarshal Wire.HasSig Wire.Body
-  Wire.Limits Wire.LimitsProofs Wire.LimitsBounds Wire.ParserTotal.
+  Wire.Relabel Wire.MarshalProofs Wire.Limits Wire.LimitsProofs Wire.LimitsBounds Wire.LimitsSend Wire.ParserTotal.
 From RB Require Conn.Recv Wire.LimitsRecv.
 
 (* n variants in each other around a variant holding the byte 7: n+1 containers *)
@@ -102,4 +102,13 @@ Example count_array :
   | Ok (v, c) => vcount v = 4 /\ uoff c = 7
   | _ => False
   end.
+Proof. vm_compute. auto. Qed.
+
+(* every array inside a value: an array of two byte arrays, marshalled by both APIs; the predicate computes *)
+Definition aay : val := VArray (TArray (TBase BByte)) [VArray (TBase BByte) [VBase BByte 1; VBase BByte 2]; VArray (TBase BByte) []].
+Example aay_typed : typed aay /\ strings_small aay = true.
+Proof. split; [exists (TArray (TArray (TBase BByte))); reflexivity|reflexivity]. Qed.
+Example aay_marshals : snd (marshal_t false aay {| mbuf := [9]; mfds := 0 |}) = true
+  /\ snd (marshal_p false 0 aay {| mbuf := [9]; mfds := 0 |}) = true
+  /\ arrays_within false 1 aay = true.
 Proof. vm_compute. auto. Qed.
